@@ -3,7 +3,8 @@
    Model (Model/CtlXfer.v): the control endpoint of LUNA at the level of its own interfaces --
    USBControlEndpoint's stage FSM + StandardRequestHandler + the request-handler multiplexer with its
    StallOnlyRequestHandler fallback; one list element = one clock cycle; parameters: endpoint number EP,
-   max_packet_size mps, width spw of the descriptor handler's start_position, skiplist predicate skip.
+   max_packet_size mps, width spw of the descriptor handler's start_position, skiplist predicate skip, and
+   gate = whether handle_register_write_request carries C08's candidate repair (every theorem is for both values).
    The model is the property-satisfying behaviour (three repairs w.r.t. the code as found, see Model/CtlXfer.v).
 
    Specification: the transfer in progress as a function of the event history (sp_next: the last SETUP packet
@@ -28,8 +29,8 @@ Open Scope N_scope.
    only by data_requested; tx = a data source's stream or a status ZLP; STALL only as an answer to a data/status
    request or the descriptor handler's verdict; ACK = decoder's SETUP ACK, status answer or PING answer; never
    NAK; address / configuration / halt strobes only together with a host ACK). *)
-Theorem C07_stage_protocol : forall EP mps spw skip tr, cx_env_trace cx_env0 tr = true ->
-  holds_along EP sp0 tr (xrun (cx_step EP mps spw skip) cx_init tr).
+Theorem C07_stage_protocol : forall EP mps spw skip gate tr, cx_env_trace cx_env0 tr = true ->
+  holds_along EP sp0 tr (xrun (cx_step EP mps spw skip gate) cx_init tr).
 Proof. exact stage_protocol. Qed.
 Print Assumptions C07_stage_protocol.
 
@@ -45,49 +46,52 @@ Print Assumptions C07_current_transfer.
    stage is the one the packet calls for and, for a standard request, the handler's request state and its
    per-request registers (DATA1, start_position 0, no ACK expected) are those of that request -- whatever the
    history, in particular after transfers abandoned at any point. *)
-Theorem C07_fresh_after_setup : forall EP mps spw skip h i, cx_env_trace cx_env0 (h ++ [i]) = true ->
+Theorem C07_fresh_after_setup : forall EP mps spw skip gate h i, cx_env_trace cx_env0 (h ++ [i]) = true ->
   i_rcv i = true -> i_tgt EP i = true ->
-  let x' := xstate (cx_step EP mps spw skip) cx_init (h ++ [i]) in
+  let x' := xstate (cx_step EP mps spw skip gate) cx_init (h ++ [i]) in
   x_ctl x' = stage_of i /\
   (i_std i = true ->
-     x_h x' = (if skip i then HIdle else dispatch i) /\ x_pid x' = true /\ x_ea x' = false /\ x_sp x' = 0).
+     x_h x' = (if skip i then HIdle else dispatch i) /\ x_pid x' = true /\ x_ea x' = false /\ x_sp x' = 0 /\
+     x_wa x' = false /\ x_wc x' = false).
 Proof. exact fresh_after_setup. Qed.
 Print Assumptions C07_fresh_after_setup.
 
 (* 2b. Hence the complete state after a standard request's SETUP does not depend on the history ... *)
-Theorem C07_history_independent : forall EP mps spw skip h1 h2 i,
+Theorem C07_history_independent : forall EP mps spw skip gate h1 h2 i,
   cx_env_trace cx_env0 (h1 ++ [i]) = true -> cx_env_trace cx_env0 (h2 ++ [i]) = true ->
   i_rcv i = true -> i_tgt EP i = true -> i_std i = true ->
-  xstate (cx_step EP mps spw skip) cx_init (h1 ++ [i]) = xstate (cx_step EP mps spw skip) cx_init (h2 ++ [i]).
+  xstate (cx_step EP mps spw skip gate) cx_init (h1 ++ [i]) = xstate (cx_step EP mps spw skip gate) cx_init (h2 ++ [i]).
 Proof. exact history_independent. Qed.
 Print Assumptions C07_history_independent.
 
 (* 2c. ... and while non-standard requests are presented the standard handler is frozen and invisible: two
    states that agree on the stage produce the same outputs (start_position compared only when the descriptor
    handler is started) and stages, for any continuation. *)
-Theorem C07_nonstandard_history_independent : forall EP mps spw skip sfx x y, x_ctl x = x_ctl y ->
+Theorem C07_nonstandard_history_independent : forall EP mps spw skip gate sfx x y, x_ctl x = x_ctl y ->
   Forall (fun i => i_std i = false) sfx ->
-  map out_obs (xrun (cx_step EP mps spw skip) x sfx) = map out_obs (xrun (cx_step EP mps spw skip) y sfx) /\
-  x_ctl (xstate (cx_step EP mps spw skip) x sfx) = x_ctl (xstate (cx_step EP mps spw skip) y sfx).
+  map out_obs (xrun (cx_step EP mps spw skip gate) x sfx) = map out_obs (xrun (cx_step EP mps spw skip gate) y sfx) /\
+  x_ctl (xstate (cx_step EP mps spw skip gate) x sfx) = x_ctl (xstate (cx_step EP mps spw skip gate) y sfx).
 Proof. exact nonstd_history_independent. Qed.
 Print Assumptions C07_nonstandard_history_independent.
 
 (* 2d. Specification-level form: the first request for data or status of a fresh transfer (fields still presented,
    no host ACK / descriptor STALL in between) is answered as the request's class demands -- serializer started /
    descriptor handler started from position 0 with DATA1 / status ZLP with DATA1 / handshake ACK / STALL. *)
-Theorem C07_first_answers_fresh : forall EP mps spw skip,
+Theorem C07_first_answers_fresh : forall EP mps spw skip gate,
   (forall f i, same_fieldsb f i = true -> skip i = skip f) ->
   forall tr, cx_env_trace cx_env0 tr = true ->
-  fresh_along EP skip sp0 false tr (xrun (cx_step EP mps spw skip) cx_init tr) = true.
+  fresh_along EP skip sp0 false tr (xrun (cx_step EP mps spw skip gate) cx_init tr) = true.
 Proof. exact first_answers_fresh. Qed.
 Print Assumptions C07_first_answers_fresh.
 
 (* 3. Tokens for other endpoints never advance or disturb the transfer: changing, in cycles whose token is for
    another endpoint, everything the token detector / data receiver report about that token (new_token,
-   ready_for_response, kind flags, rx_ready_for_response) changes neither outputs nor state.  No hypothesis. *)
-Theorem C07_foreign_tokens_invisible : forall EP mps spw skip tr1 tr2 x,
-  Forall2 (foreign_related EP skip) tr1 tr2 ->
-  xrun (cx_step EP mps spw skip) x tr1 = xrun (cx_step EP mps spw skip) x tr2.
+   ready_for_response, kind flags, rx_ready_for_response) changes neither outputs nor state.  No hypothesis.
+   (With C08's repair the SET_ADDRESS / SET_CONFIGURATION states drop an un-ACKed status answer at ANY new token,
+   so for gate = true the two histories also agree on new_token: see foreign_related.) *)
+Theorem C07_foreign_tokens_invisible : forall EP mps spw skip gate tr1 tr2 x,
+  Forall2 (foreign_related EP skip gate) tr1 tr2 ->
+  xrun (cx_step EP mps spw skip gate) x tr1 = xrun (cx_step EP mps spw skip gate) x tr2.
 Proof. exact foreign_tokens_invisible. Qed.
 Print Assumptions C07_foreign_tokens_invisible.
 
@@ -114,7 +118,7 @@ Proof. vm_compute. reflexivity. Qed.
    address 42 taken in cycle 9 *)
 Example C07_example_run :
   map (fun o => (o_dr o, o_ds o, o_sr o, (o_txv o, o_txl o, o_pid o), (o_ac o, o_na o)))
-      (xrun (cx_step 0 64 11 skip_none) cx_init c07_example) =
+      (xrun (cx_step 0 64 11 skip_none false) cx_init c07_example) =
   [ (false, false, false, (false, false, 1), (false, 0)); (false, false, false, (false, false, 1), (false, 0));
     (false, false, false, (false, false, 1), (false, 0)); (true, true, false, (false, false, 1), (false, 0));
     (false, false, false, (false, false, 1), (false, 0)); (false, false, false, (false, false, 1), (false, 0));
